@@ -19,7 +19,7 @@ func zzH_C17_ipp() {
 	uri := "ipp://h/" + str(zzLen(0, zzParam("S", 2)))
 	user := str(zzLen(1, zzParam("S", 2)))
 	job := str(zzLen(0, zzParam("S", 2)))
-	copies := int32(zzU32())
+	copies, prio, mv1, mv2 := int32(zzU32()), int32(zzU32()), int32(zzU32()), int32(zzU32())
 	flag := zzBool()
 	doc := zzBytes(zzLen(0, zzParam("D", 4)))
 	docCopy := append([]byte{}, doc...)
@@ -37,6 +37,8 @@ func zzH_C17_ipp() {
 	if withJob {
 		m.attributes = append(m.attributes, &attribGroup{tag: jobAttribTag, val: []ValueType{
 			&valInt{valInteger, "copies", []int32{copies}},
+			&valInt{valInteger, "job-priority", []int32{prio}}, // same value tag directly after
+			&valInt{valInteger, "m", []int32{mv1, mv2}},        // a two-valued attribute
 			&valBool{valBoolean, "b", []bool{flag}},
 		}})
 	}
@@ -65,11 +67,15 @@ func zzH_C17_ipp() {
 	}
 	if withJob {
 		jv := got.attributes[1].val
-		zzAssert(len(jv) == 2, "the job attributes decode to what was encoded")
-		if len(jv) == 2 {
+		zzAssert(len(jv) == 4, "the job attributes decode to what was encoded")
+		if len(jv) == 4 {
 			vi, ok := jv[0].(*valInt)
 			zzAssert(ok && len(vi.val) == 1 && vi.val[0] == copies, "an integer attribute decodes to the number encoded")
-			vb, ok := jv[1].(*valBool)
+			vp, ok := jv[1].(*valInt)
+			zzAssert(ok && vp.name == "job-priority" && len(vp.val) == 1 && vp.val[0] == prio, "an integer attribute that directly follows another one decodes to its own name and number")
+			vm, ok := jv[2].(*valInt)
+			zzAssert(ok && len(vm.val) == 2 && vm.val[0] == mv1 && vm.val[1] == mv2, "a multi-valued integer attribute decodes to all its values")
+			vb, ok := jv[3].(*valBool)
 			zzAssert(ok && len(vb.val) == 1 && vb.val[0] == flag, "a boolean attribute decodes to the value encoded")
 		}
 	}
